@@ -793,6 +793,7 @@ impl Exec {
             CAct::Move { mv, enc } => {
                 orig_mv = *mv;
                 match enc {
+                    Enc::Api => vec![],
                     Enc::Uci => match mv {
                         Some(m) => {
                             // real library rendering of the move value
@@ -930,7 +931,12 @@ impl Exec {
     fn decode_move(&mut self, m: &Msg, mv: Option<Mv>, enc: &Enc) -> Result<Option<ChessMove>, Violation> {
         let text = m.text();
         let corrupted = m.corrupted();
+        if *enc == Enc::Api {
+            // no text: the value itself is handed to the game
+            return Ok(mv.map(lib_mv));
+        }
         let as_san = match enc {
+            Enc::Api => false,
             Enc::Uci => false,
             Enc::San(_) => true,
             Enc::Raw { san, .. } => *san,
